@@ -1505,7 +1505,17 @@ def judge(st: St, op, info, res, depth: int, out: StepResult) -> StepResult:
     new.grids = []
     for i, it in enumerate(items):
         g = it["grid"].copy()
-        g.z = obs[i].z.copy() if name in ("resample",) else g.z  # fractional size after resample is not promised
+        # The fractional internal Grid size is promised only for the resize-type operations (down/upsample round trip).
+        # After every other operation (resample, crop-type, pooling, sample ...) the implementation's internal size is
+        # adopted whenever it denotes the same number of samples, as C03's reference does; for resize-type operations it
+        # is adopted only if it equals the promised value up to float32 rounding (keeps later ceil() decisions in step).
+        oz = obs[i].z
+        if np.array_equal(np.ceil(oz - 1e-9), g.n):
+            if name in ("resize", "downsample", "upsample"):
+                if np.all(np.abs(oz - g.z) <= 1e-5 * np.maximum(g.z, 1.0)):
+                    g.z = oz.copy()
+            else:
+                g.z = oz.copy()
         g.ac = obs[i].ac
         new.grids.append(g)
     new.masks = [it["mask"] for it in items]
